@@ -448,6 +448,20 @@ func main() {
 		}
 		h.runBatch(batch)
 	}
+	nStruct, nQuoted := 120, 500
+	if r.Thorough {
+		nStruct, nQuoted = 1500, 6000
+	}
+	batch = batch[:0]
+	for i := 0; i < nStruct; i++ {
+		batch = append(batch, genStructGraph(r.Rand))
+	}
+	h.runBatch(batch)
+	batch = batch[:0]
+	for i := 0; i < nQuoted; i++ {
+		batch = append(batch, genQuotedLiteral(r.Rand))
+	}
+	h.runBatch(batch)
 	for done := 0; done < nProgram; done += 500 {
 		batch = batch[:0]
 		for i := 0; i < 500 && done+i < nProgram; i++ {
@@ -498,5 +512,6 @@ func main() {
 	r.Extra("workers", nw)
 	r.Finish("sources: unmutated std/ + hello-wuffs-c packages; every lexeme of every statement/declaration template deleted or doubled; " +
 		"tokenizer limits; nesting depth ladders of every recursive construct; random bytes and token soup; snippet programs and corpus packages under 1–3 " +
-		"token/line/tree mutations. Non-trivial = tokenizes (reaches the parser); distinct by SHA-256 of the primary file.")
+		"token/line/tree/byte mutations; packages of structs containing each other (plain, arrays) in random declaration order; " +
+		"quoted literals assembled from complete and truncated escape atoms. Non-trivial = tokenizes (reaches the parser); distinct by SHA-256 of the primary file.")
 }
